@@ -69,6 +69,21 @@ class C04(PropBase):
                 tw = self._twin(rng, step)
                 if tw is not None:
                     steps.append(tw)
+            if isinstance(step.get("v"), dict) and "$dt" in step["v"] and step["op"] in ("s_parse", "s_emit") and rng.random() < 0.3:
+                # a sibling with the same wall-clock fields whose offset lies exactly 24 h away
+                # (+14:00 / -10:00, +13:00 / -11:00, ...): another instant, another text, other tzinfo
+                sib = copy.deepcopy(step)
+                off = sib["v"]["$dt"][7]
+                if off:
+                    off2 = off - 1440 if off > 0 else off + 1440
+                    sib["v"]["$dt"][7] = off2
+                    steps.append(sib)
+                elif off == 0:
+                    sib["v"]["$dt"][7] = rng.choice([840, 780, 720])
+                    steps.append(sib)
+                    sib2 = copy.deepcopy(sib)
+                    sib2["v"]["$dt"][7] -= 1440
+                    steps.append(sib2)
             if "cross_target" in sw and step["op"] == "s_parse" and step["k"] in TEMPORAL and rng.random() < 0.6:
                 # F5-like: the very same text is first offered to *another* temporal target (a union
                 # trying its members in order does exactly this); whatever that call does, the real
